@@ -56,21 +56,40 @@ Proof.
 Qed.
 
 (* ---- fn write ---------------------------------------------------------------------- *)
+(* The proof does not depend on how the Rust loop is spelled: the loop combinator ([while_fuel] with early returns, or
+   [while_fuel0] with breaks only), its step function, its initial state tuple and everything that FOLLOWS the loop (the
+   continuation K) are read off the goal; the loop lemma is stated over "the same initial tuple with cursor / writer /
+   state / delivered generalised" and "K applied to what the loop answers".  So early returns inside the loop and a
+   `break` into one shared exit section after the loop (with further loop variables that record why it stopped) are the
+   same proof: at every exit the goal is normalised by [write_exit] until both sides agree. *)
+Ltac write_exit s0 :=
+  repeat first
+    [ progress cbn [conv_n sres_of_n negb fst snd p_off]
+    | rewrite g_offset_to_eq
+    | rewrite slice_prefix by lia
+    | rewrite <- sb_last_replay
+    | match goal with |- context [sb_last s0 ?b] => destruct (sb_last s0 b) as [[? ?]|] end
+    | reflexivity ].
+
 Lemma g_write_eq raw s buf : conv_n (g_write raw s buf) = ss_write s buf raw.
 Proof.
-  unfold g_write, ss_write, sbi_new.
-  match goal with |- context [while_fuel _ ?f _] => set (step := f) end.
-  assert (L : forall fuel bs off st u d w,
-             (exists pre, buf = pre ++ bs /\ off = N.of_nat (length pre)) ->
-             conv_n (match while_fuel fuel step ((bs, off), w, mkSB st u, d) with
-                     | Some (inl (_, raw3, state7, _)) => Some (raw3, state7, inl (len buf))
-                     | Some (inr ((_, raw4, state8, _), rv)) => Some (raw4, state8, rv)
-                     | None => None
-                     end) = ss_write_loop fuel buf bs off s st u d w).
+  destruct s as [st0 u0].
+  unfold g_write, ss_write, sbi_new. cbv zeta. cbn [sb_state sb_u].
+  match goal with
+  | |- conv_n (match ?W ?fuel0 ?f ?init with Some x => @?K x | None => None end) = _ =>
+      let p := eval pattern (buf, 0), raw, (mkSB st0 u0), false in init in
+      match p with
+      | ?mk _ _ _ _ =>
+          assert (L : forall fuel bs off st u d w,
+                     (exists pre, buf = pre ++ bs /\ off = N.of_nat (length pre)) ->
+                     conv_n (match W fuel f (mk (bs, off) w (mkSB st u) d) with Some x => K x | None => None end)
+                     = ss_write_loop fuel buf bs off (mkSB st0 u0) st u d w)
+      end
+  end.
   { induction fuel as [|fuel IH]; intros bs off st u d w (pre & Hbuf & Hoff); [reflexivity|].
-    cbn [while_fuel ss_write_loop]. unfold step at 1. unfold sbi_next. cbn [fst snd sb_state sb_u].
+    cbn [while_fuel while_fuel0 ss_write_loop]. unfold sbi_next. cbn [fst snd sb_state sb_u].
     destruct (next_bytes bs off st u) as [[[[[p bs'] off'] st'] u']|] eqn:Hn; [|reflexivity].
-    destruct p as [pc|]; [|reflexivity].
+    destruct p as [pc|]; [|write_exit (mkSB st0 u0)].
     destruct (next_bytes_geom _ _ _ _ _ _ _ _ _ Hn) as (pre' & Hbs & Hpo & Ho').
     assert (Hlen : p_off pc + N.of_nat (length (p_bytes pc)) <= N.of_nat (length buf)).
     { rewrite Hbuf, Hbs, Hpo, Hoff, !app_length. lia. }
@@ -84,45 +103,35 @@ Proof.
         * rewrite Ho', Hpo, Hoff, !app_length. lia.
       + rewrite N.ltb_antisym.
         destruct (written <=? N.of_nat (length (p_bytes pc))) eqn:Ele; cbn [negb]; [|reflexivity].
-        rewrite g_offset_to_eq. cbn [p_off].
         apply N.leb_le in Ele.
-        rewrite slice_prefix by lia.
-        rewrite <- sb_last_replay.
-        destruct (sb_last s (firstn (N.to_nat (p_off pc + written)) buf)) as [[s1 lp]|]; reflexivity.
-    - rewrite g_offset_to_eq.
-      destruct d; cbn [negb]; [|reflexivity].
-      rewrite slice_prefix by lia.
-      rewrite <- sb_last_replay.
-      destruct (sb_last s (firstn (N.to_nat (p_off pc)) buf)) as [[s1 lp]|]; reflexivity. }
-  specialize (L (S (length buf)) buf 0 (sb_state s) (sb_u s) false raw).
-  destruct s as [st u]. cbn [sb_state sb_u] in *.
-  rewrite <- L by (exists []; split; reflexivity).
-  destruct (while_fuel (S (length buf)) step (buf, 0, raw, {| sb_state := st; sb_u := u |}, false)) as [[[[[? ?] ?] ?]|[[[[? ?] ?] ?] ?]]|];
-    reflexivity.
+        write_exit (mkSB st0 u0).
+    - destruct d; write_exit (mkSB st0 u0). }
+  apply (L (S (length buf)) buf 0 st0 u0 false raw). exists []; split; reflexivity.
 Qed.
 
 (* ---- fn write_all -------------------------------------------------------------------- *)
 Lemma g_write_all_eq raw s buf : conv_u (g_write_all raw s buf) = ss_write_all s buf raw.
 Proof.
-  unfold g_write_all, ss_write_all, sbi_new.
-  match goal with |- context [while_fuel _ ?f _] => set (step := f) end.
-  assert (L : forall fuel bs off st u w,
-             conv_u (match while_fuel fuel step ((bs, off), w, mkSB st u) with
-                     | Some (inl (_, raw3, state3)) => Some (raw3, state3, inl tt)
-                     | Some (inr ((_, raw4, state4), rv)) => Some (raw4, state4, rv)
-                     | None => None
-                     end) = ss_write_all_loop fuel bs off st u w).
+  (* as for g_write_eq: combinator, step, initial tuple and continuation are read off the goal *)
+  destruct s as [st0 u0].
+  unfold g_write_all, ss_write_all, sbi_new. cbv zeta. cbn [sb_state sb_u].
+  match goal with
+  | |- conv_u (match ?W ?fuel0 ?f ?init with Some x => @?K x | None => None end) = _ =>
+      let p := eval pattern (buf, 0), raw, (mkSB st0 u0) in init in
+      match p with
+      | ?mk _ _ _ =>
+          assert (L : forall fuel bs off st u w,
+                     conv_u (match W fuel f (mk (bs, off) w (mkSB st u)) with Some x => K x | None => None end)
+                     = ss_write_all_loop fuel bs off st u w)
+      end
+  end.
   { induction fuel as [|fuel IH]; intros bs off st u w; [reflexivity|].
-    cbn [while_fuel ss_write_all_loop]. unfold step at 1. unfold sbi_next. cbn [fst snd sb_state sb_u].
+    cbn [while_fuel while_fuel0 ss_write_all_loop]. unfold sbi_next. cbn [fst snd sb_state sb_u].
     destruct (next_bytes bs off st u) as [[[[[p bs'] off'] st'] u']|]; [|reflexivity].
     destruct p as [pc|]; [|reflexivity].
     unfold ss_raw_write_all. destruct (w_write_all w (p_bytes pc)) as [w1 r]. destruct r as [q|e]; [|reflexivity].
     apply IH. }
-  specialize (L (S (length buf)) buf 0 (sb_state s) (sb_u s) raw).
-  destruct s as [st u]. cbn [sb_state sb_u] in *.
-  rewrite <- L.
-  destruct (while_fuel (S (length buf)) step (buf, 0, raw, {| sb_state := st; sb_u := u |})) as [[[[? ?] ?]|[[[? ?] ?] ?]]|];
-    reflexivity.
+  apply (L (S (length buf)) buf 0 st0 u0 raw).
 Qed.
 
 (* ---- fn write_fmt ---------------------------------------------------------------------- *)
